@@ -267,6 +267,7 @@ struct Node {
   Type *func_ty;
   Node *args;
   bool pass_by_stack;
+  bool stack_pad;
   Obj *ret_buffer;
 
   // Goto or labeled statement, or labels-as-values
